@@ -68,12 +68,16 @@ def _infeasible_fallthrough(run, f):
     if f.name == 'det':
         covered = set()
         for t in tests:
-            if isinstance(t, ast.Compare) and len(t.ops) == 1 and isinstance(t.ops[0], ast.In) \
-                    and ast.unparse(t.left) == 'type(self).__name__' and isinstance(t.comparators[0], (ast.Tuple, ast.List)):
-                for e in t.comparators[0].elts:
-                    if isinstance(e, ast.Constant):
-                        covered.add(e.value)
-            else:
+            # `type(self).__name__ in ('SO3', 'SE3')`, or its normal form `... == 'SO3' or ... == 'SE3'`
+            parts = t.values if (isinstance(t, ast.BoolOp) and isinstance(t.op, ast.Or)) else [t]
+            for q in parts:
+                if isinstance(q, ast.Compare) and len(q.ops) == 1 and ast.unparse(q.left) == 'type(self).__name__':
+                    if isinstance(q.ops[0], ast.In) and isinstance(q.comparators[0], (ast.Tuple, ast.List)):
+                        covered |= {e.value for e in q.comparators[0].elts if isinstance(e, ast.Constant)}
+                        continue
+                    if isinstance(q.ops[0], ast.Eq) and isinstance(q.comparators[0], ast.Constant):
+                        covered.add(q.comparators[0].value)
+                        continue
                 return False
         return covered == names
     else:
